@@ -350,7 +350,34 @@ pub fn run_conv(dir: &str, v: &Val) -> Option<Val> {
     .flatten()
 }
 
+/// the same operation over `String` and over `u32` literals (see `typed.rs`): the literal type is a
+/// parameter of the crate, and the order of numbers is not the order of their text
+pub fn gen_typed(cx: &mut Ctx, prop: &str, op: &str, count: usize) {
+    let ns = names(&["a", "b", "c", "d"]);
+    let mut pool: Vec<E> = idiom_exprs().into_iter().step_by(9).chain(shaped_exprs()).chain(clause_pairs().into_iter().step_by(37)).collect();
+    for _ in 0..count {
+        pool.push(random_tree(&mut cx.rng, 3, &ns, true, 0));
+    }
+    let all = names(&["a", "b", "c", "d", "e", "zz"]);
+    for i in 0..count {
+        let e = pool[i % pool.len()].clone();
+        let y = cx.rng.pick(&pool).clone();
+        if tree_size(&e) > 40 || tree_size(&y) > 40 {
+            continue;
+        }
+        let set: BTreeSet<String> = all.iter().filter(|_| cx.rng.below(3) == 0).cloned().collect();
+        let mut val: BTreeMap<String, bool> = BTreeMap::new();
+        for n in &all {
+            if cx.rng.below(2) == 0 {
+                val.insert(n.clone(), cx.rng.coin());
+            }
+        }
+        cx.emit(prop, &format!("typed.{}", op), &[Arg::F(Val::E(e)), Arg::F(Val::E(y)), Arg::S(set), Arg::V(val)], true);
+    }
+}
+
 pub fn gen_c01(cx: &mut Ctx) {
+    gen_typed(cx, "C01", "conv", 150);
     let depth = if cx.thorough { 4 } else { 3 };
     for ns in small_name_sets(cx.thorough) {
         for bits in all_functions(ns.len()) {
@@ -506,6 +533,7 @@ pub fn reps_of(e: &E) -> Vec<Val> {
 // C03
 
 pub fn gen_c03(cx: &mut Ctx) {
+    gen_typed(cx, "C03", "bin", 150);
     let universe = names(&["a", "b", "c", "d"]);
     let max_vars = if cx.thorough { 3 } else { 2 };
     let sets: Vec<Vec<String>> = subsets(&universe).into_iter().filter(|s| s.len() <= max_vars).collect();
@@ -1073,6 +1101,7 @@ fn shaped_exprs() -> Vec<E> {
 }
 
 pub fn gen_c05(cx: &mut Ctx) {
+    gen_typed(cx, "C05", "restrict", 150);
     {
         let keys = names(&["a", "b", "c", "zz"]);
         let assignments = partial_assignments(&keys);
@@ -1161,6 +1190,7 @@ fn random_unary(cx: &mut Ctx, prop: &str) {
 }
 
 fn gen_quant(cx: &mut Ctx, prop: &str, ops: &[&str]) {
+    gen_typed(cx, prop, "quant", 150);
     let universe = if cx.thorough { names(&["a", "b", "c", "d", "zz"]) } else { names(&["a", "b", "c", "zz"]) };
     let mut sets = subsets(&universe);
     // foreign names that fall into one gap of the sorted inputs: before everything (`0`, `1`), between
@@ -1230,6 +1260,7 @@ pub fn gen_c07(cx: &mut Ctx) {
 // C08
 
 pub fn gen_c08(cx: &mut Ctx) {
+    gen_typed(cx, "C08", "subst", 150);
     let key_pool = names(&["a", "b", "z"]);
     // replacement functions of at most one variable over {a, b, c, z}
     let mut values: Vec<(Vec<String>, Vec<bool>)> = vec![(vec![], vec![false]), (vec![], vec![true])];
@@ -1521,6 +1552,7 @@ fn emit_nf(cx: &mut Ctx, e: &E) {
 }
 
 pub fn gen_c11(cx: &mut Ctx) {
+    gen_typed(cx, "C11", "nf", 150);
     let leaves = vec![lit("a"), lit("b"), lit("c"), cst(true)];
     for e in trees_up_to(if cx.thorough { 5 } else { 4 }, &leaves, 3, 0) {
         emit_nf(cx, &e);
